@@ -624,7 +624,7 @@ func checkC10(w *World) {
 			if _, isPos := isMethodCall(x, "Pos"); isPos {
 				ok, why = true, "the position of the cursor being replaced (read through Pos())"
 			} else if g := staticCallee(x); g != nil && fnPkgKey(g) == "store" && advancesAndReturnsCounter(g) {
-				ok, why = true, "the result of " + g.Name() + ", which advances the builder's counter field by at least one and returns the new value"
+				ok, why = true, "the result of "+g.Name()+", which advances the builder's counter field by at least one and returns the new value"
 			}
 		case *ssa.Parameter:
 			why = "the caller's counter value, un-incremented: it is also the position of the node created just before (the element itself)"
